@@ -165,6 +165,14 @@ def mediaOp (j : Json) : Except String Res := do
       (List.range total).all (fun i => shown.contains (i + 1)) && (lineRunValues plain).all (· ≤ total))
   -- numbers outside 1..N open nothing
   let outsideOk := implSel.all fun (n, p, _) => !(n < 1 || n > total) || !p
+  -- ... and "N" is what the reader sees: no number larger than the largest one shown opens anything
+  -- (judged on the renderings wide enough for every number to stand unbroken, and only when the
+  -- text carries no superscripts of its own)
+  let supers := (j.getObjVal? "supers").toOption == some (Json.bool true)
+  let beyondShownOk := supers || !intact || (texts.zip widths).all fun (txt, w) =>
+    w < 40 || (let shown := shownNumbers (Safe.strip txt)
+      let top := shown.foldl Nat.max 0
+      implSel.all fun (n, p, _) => !(p && n > top))
   -- a number typed into the interface starts the program with what that number selects when asked directly
   let urlAt : Option Nat := (hook.drop 1).findIdx? (· == "%url".toList) |>.map (· + 1)
   let typedOk := !viaUi || (stepsA.toList.zip implSteps).all fun (d, r) =>
@@ -190,7 +198,8 @@ def mediaOp (j : Json) : Except String Res := do
   let frames : List Str := (strList j "frames").toOption.getD []
   pure { model := Json.mkObj [("steps", stepsJson), ("bodylinks", jsl bodyLinks), ("sel", modelSel)],
          preds := basePreds ++ [("label_opens_own_target", labelOk), ("numbers_1_to_N_shown", numbersOk),
-                                ("numbers_outside_open_nothing", outsideOk)] ++
+                                ("numbers_outside_open_nothing", outsideOk),
+                                ("nothing_opens_beyond_the_numbers_shown", beyondShownOk)] ++
                   (if viaUi then [("frames_safe", frames.all Safe.safe), ("typed_number_opens_that_number", typedOk)] else []),
          nontrivial := sels.any Option.isSome }
 
